@@ -77,3 +77,18 @@ def padIsAlwaysExh (sp se : Option Nat) (rank : Nat) : Bool :=
       | none => false
 
 end Mdspan
+
+namespace Mdspan
+/-- `layout_stride::mapping()` → `strides_storage(true_type)`:
+    `index_type stride = 1; for (r = rank-1; r >= 0; r--) { s[r] = stride; stride *= e.extent(r); }`
+    (over the reversed extents, producing the reversed strides) -/
+def defaultStridesGoM (T : ITy) (stride : Int) : List Int → M (List Int)
+  | [] => pure []
+  | e :: es => do
+      let s' ← mulAssignM T stride e
+      let rest ← defaultStridesGoM T s' es
+      pure (stride :: rest)
+def defaultStridesM (T : ITy) (es : List Int) : M (List Int) := do
+  let r ← defaultStridesGoM T 1 es.reverse
+  pure r.reverse
+end Mdspan
